@@ -272,10 +272,18 @@ func (check typecheck) binaryExpr(n *node) error {
 	}
 
 	// Ensure that if values are untyped, both are converted to the same type
-	_ = check.convertUntyped(c0, c1.typ)
-	_ = check.convertUntyped(c1, c0.typ)
+	err0 := check.convertUntyped(c0, c1.typ)
+	err1 := check.convertUntyped(c1, c0.typ)
 
 	if isComparisonAction(a) {
+		// A constant operand which cannot be converted to the type of the other one is an error
+		// (the arithmetic operators report it below as mismatched types).
+		if err0 != nil {
+			return err0
+		}
+		if err1 != nil {
+			return err1
+		}
 		return check.comparison(n)
 	}
 
